@@ -33,7 +33,7 @@ RULE = ('cases = (opacity table in increasing wavelength covering 0.55 micron, w
 REQUIRED_BRANCHES = ['query_inside', 'query_outside_low', 'query_outside_high', 'query_on_node', 'query_at_V',
                      'tab_micron', 'tab_nm', 'tab_m', 'tab_AA', 'tab_cm', 'tab_mm',
                      'query_micron', 'query_nm', 'query_m', 'query_AA', 'query_cm', 'query_mm',
-                     'query_shape_0d', 'query_shape_1d', 'query_shape_2d', 'v_first_node', 'v_last_node',
+                     'query_shape_0d', 'query_shape_1d', 'query_shape_2d', 'v_first_node', 'v_last_node', 'end_node_exact_strict', 'end_node_is_V_strict',
                      'chi_cm2_g', 'chi_m2_kg', 'chi_cm2_kg', 'chi_m2_g', 'via_direct', 'via_pickle', 'via_table', 'via_file', 'file_columns_1_0', 'file_columns_0_3', 'file_columns_2_1',
                      'file_positional_call', 'file_keyword_call',
                      'rows_2', 'rows_200',
@@ -41,7 +41,9 @@ REQUIRED_BRANCHES = ['query_inside', 'query_outside_low', 'query_outside_high', 
                      'hist_dup_modify', 'dup_copy_copy_modified', 'dup_copy_original_modified', 'dup_deepcopy_copy_modified',
                      'dup_deepcopy_original_modified', 'dup_pickle_copy_modified', 'dup_pickle_original_modified', 'arr_f8', 'arr_f4', 'arr_i8', 'arr_be', 'arr_ro', 'hist_alias_from_table', 'hist_alias_to_table', 'hist_alias_pickle']
 ASSUMPTIONS = ['IEEE rounding is not modelled: patterns compared within 1e-9 relative (exactly 0 outside the table)',
-               'decision margin: a query (or V used as a query) that, converted exactly to the table unit, lies within 4 ulp of '
+               'decision margin (only for queries given in ANOTHER unit than the table, i.e. when a float unit conversion takes '
+               'place; a query in the table\'s own unit is compared strictly, also exactly on the first / last node): '
+               'a query (or V used as a query) that, converted exactly to the table unit, lies within 4 ulp of '
                'the first / last node sits on the jump between the tabulated end value and 0; the float unit conversion '
                '(wav.to(self.wav.unit)) decides the side, so either value is accepted there and the query is counted in '
                'margin_relaxed; everywhere else, including V strictly inside the table, the comparison is strict',
@@ -406,6 +408,14 @@ def compare(e, wav, chi, tab_unit, queries, drv, branches, label, via, relaxed):
             # where the pattern jumps between the tabulated end value and 0; the float conversion decides the side
             xe = nominal_in_unit(raw, q['unit'], tab_unit)
             near = [w for w in (lo, hi) if abs(xe - Fraction(w)) <= 4 * Fraction(math.ulp(w))]
+            if near and q['unit'] == tab_unit:
+                # no unit conversion takes place: the query IS the float it was written as; on an end node the tabulated
+                # value is required (strict comparison below), next to it the strict inside / outside value
+                near = []
+                if x == lo or x == hi:
+                    branches.add('end_node_exact_strict')
+                    if x == v:
+                        branches.add('end_node_is_V_strict')
             if near:
                 relaxed[0] += 1
                 branches.add('margin_relaxed_end_node')
